@@ -5,6 +5,8 @@
      src/terminal.go       constrain (single-line items, gap 0), the temp-file handling of
                            replacePlaceholder / evaluateScrollOffset / executeCommand / the preview goroutine /
                            reload (terminal -> event box -> coordinator -> reader) / become
+     src/proxy.go          runProxy: the files of the --tmux popup proxy (fifos, script, <script>.become), the
+                           deferred removals, and the become branch that ends in syscall.Exec
    No proofs here. *)
 From Fzf Require Import Prelude TermSpec.
 From Coq Require Import Decimal.
@@ -284,3 +286,56 @@ Definition t_step (st : tstate) (e : tev) : tstate :=
   end.
 
 Definition t_run (st : tstate) (es : list tev) : tstate := fold_left t_step es st.
+
+(* ------------------------------------------------------------------ the --tmux popup proxy (src/proxy.go: runProxy) *)
+(* Everything the environment decides: *)
+Record penv := mkPenv {
+  pe_stdin_tty : bool;      (* opts.Input == nil && (ForceTtyIn || IsTty(stdin)): no input fifo *)
+  pe_out_ok : bool;         (* mkfifo of the output fifo succeeded *)
+  pe_in_ok : bool;          (* mkfifo of the input fifo succeeded *)
+  pe_builder_ok : bool;     (* cmdBuilder (tmux.go: sh()) returned a command *)
+  pe_child : Z;             (* what cmd.Run() reports for `tmux display-popup -E ... sh <script>`: 0 = nil error *)
+  pe_exiterr : bool;        (* a non-nil error of cmd.Run() is an *exec.ExitError *)
+  pe_inner_become : bool;   (* the inner fzf wrote <script>.become (terminal.go: actBecome with a proxy script) *)
+  pe_ttyin_ok : bool        (* tui.TtyIn() succeeded *)
+}.
+Record pres := mkPres {
+  pr_live : list pfile;     (* the files that exist while the popup command runs *)
+  pr_left : list pfile;     (* the files that exist when runProxy has returned / has called exec *)
+  pr_code : Z;              (* the exit status runProxy returns; -1 when the process was replaced *)
+  pr_exec : bool
+}.
+Definition pf_eqb (a b : pfile) : bool := pfile_code a =? pfile_code b.
+Definition p_remove (f : pfile) (fs : list pfile) : list pfile := filter (fun x => negb (pf_eqb x f)) fs.
+(* `return`: the deferred os.Remove calls run, the one registered last first (the head of ds) *)
+Definition p_return (ds fs : list pfile) : list pfile := fold_left (fun acc f => p_remove f acc) ds fs.
+
+Definition run_proxy (e : penv) : pres :=
+  (* output, err := fifo("proxy-output"); if err != nil { return }; defer os.Remove(output) *)
+  if negb (pe_out_ok e) then mkPres [] [] 2 false else
+  let fs := [PFOut] in let ds := [PFOut] in
+  (* input fifo: only when standard input is not the terminal *)
+  let '(okin, fs, ds) :=
+    if pe_stdin_tty e then (true, fs, ds)
+    else if pe_in_ok e then (true, fs ++ [PFIn], PFIn :: ds) else (false, fs, ds) in
+  if negb okin then mkPres [] (p_return ds fs) 2 false else
+  (* temp := WriteTemporaryFile(...); defer os.Remove(temp) *)
+  let fs := fs ++ [PFScript] in let ds := PFScript :: ds in
+  if negb (pe_builder_ok e) then mkPres [] (p_return ds fs) 2 false else
+  let live := fs in
+  (* cmd.Run(): the popup runs the script; the inner fzf may leave <script>.become *)
+  let fs := if pe_inner_become e then fs ++ [PFBecome] else fs in
+  if pe_child e =? 0 then mkPres live (p_return ds fs) 0 false
+  else if negb (pe_exiterr e) then mkPres live (p_return ds fs) 0 false
+  else if pe_child e =? 126 then
+    (* data, err := os.ReadFile(becomeFile); os.Remove(becomeFile); if err != nil { return } *)
+    let readok := pe_inner_become e in
+    let fs := p_remove PFBecome fs in
+    if negb readok then mkPres live (p_return ds fs) 2 false
+    else if negb (pe_ttyin_ok e) then mkPres live (p_return ds fs) 2 false
+    else
+      (* os.Remove(temp); os.Remove(input); os.Remove(output); executor.Become(...) = syscall.Exec:
+         the process image is replaced, the deferred calls NEVER run *)
+      let fs := p_remove PFOut (p_remove PFIn (p_remove PFScript fs)) in
+      mkPres live fs (-1) true
+  else mkPres live (p_return ds fs) (pe_child e) false.
